@@ -1,6 +1,6 @@
 SPECIFICATION Spec
 CONSTANTS
-  MaxItems = 3
+  MaxItems = 2
   Tier = "thorough"
 INVARIANTS RoundTrip Lens Sized
 CONSTRAINT Emit
